@@ -20,6 +20,14 @@ ClientReq(t) ==
        [] m = "MOVE" -> [b EXCEPT !.dform = "path", !.dp = RandomElement(NearPaths(t)), !.ow = RandomElement({"T", "F"})]
        [] m = "PROPFIND" -> [b EXCEPT !.depth = RandomElement({"0", "1", "infinity"}), !.pform = "fileinfo"]
        [] OTHER -> b
+\* after a COPY or MOVE, every other request goes to its source, its destination or something below them (what the transfer
+\* left behind must be independent resources: a later write to one side must not show on the other)
+FollowUp(t, lr) ==
+  LET near == {lr.p, lr.dp} \cup {x \in DOMAIN t : Under(x, lr.p) \/ Under(x, lr.dp)}
+      q == RandomElement(near)
+      m == RandomElement({"PUT", "DELETE", "PROPFIND", "GET"})
+      b == [Base(m, q) EXCEPT !.c = IF m = "PUT" THEN RandomElement(Contents) ELSE ""]
+  IN IF m = "PROPFIND" THEN [b EXCEPT !.depth = RandomElement({"0", "1", "infinity"}), !.pform = "fileinfo"] ELSE b
 GenReq(t) ==
   IF ClientMix THEN ClientReq(t) ELSE
   LET m == RandomElement(IF CondMix THEN {"PUT", "PUT", "PUT", "DELETE", "DELETE", "MKCOL", "COPY", "MOVE", "GET", "GET", "HEAD", "HEAD", "PROPFIND", "PROPFIND"}
@@ -37,7 +45,8 @@ GenReq(t) ==
 SInit == Init /\ hist = << >>
 \* one random successor per step (RandomElement draws from TLC's seeded generator): cheap simulation
 SNext == /\ Len(hist) < HistLen
-         /\ \E r \in {GenReq(tree)} : \E o \in {RandomElement(Outcomes(tree, r))} :
+         /\ \E r \in {IF hist # << >> /\ hist[Len(hist)].m \in {"COPY", "MOVE"} /\ hist[Len(hist)].dform = "path" /\ RandomElement(1..2) = 1
+                        THEN FollowUp(tree, hist[Len(hist)]) ELSE GenReq(tree)} : \E o \in {RandomElement(Outcomes(tree, r))} :
               /\ tree' = (IF TooDeep(o.t) THEN tree ELSE o.t)
               /\ last' = [ok |-> o.ok, st |-> o.st, m |-> r.m, cond |-> TRUE]
               /\ hist' = IF TooDeep(o.t) THEN hist ELSE Append(hist, r)
